@@ -9,6 +9,7 @@
 import MosVerif.Model.Router
 -- @component malformed MosVerif.Listeners.runMalformed
 -- @component serve MosVerif.Listeners.runServe
+-- @component rawhttp MosVerif.Listeners.runRawHttp
 -- @component mixstress MosVerif.Listeners.runMixStress
 -- @component udpsize MosVerif.Listeners.runUdpSize
 -- @component handlemix MosVerif.Listeners.runHandleMix
@@ -41,6 +42,17 @@ def runMalformed (case impl : String) : String × String :=
         | _, _ => "ok"
     (out, v)
   | _, _ => ("bad-case", "na")
+
+/-- `rawhttp`: raw request bytes written to an HTTP listener. The HTTP parsing layer (net/http, fasthttp) is
+outside the model; whatever it hands to the handler is a byte string, on which `unpackMsg` is total
+(`Props/C01`), so the only prediction is: no crash and the listener keeps serving. -/
+def runRawHttp (_case impl : String) : String × String :=
+  let itoks := words impl
+  let v :=
+    if impl == "panic" then "viol:panic"
+    else if kvGet itoks "next" != some "ok" then "viol:stopped-serving"
+    else "ok"
+  ("next=ok", v)
 
 def judgeCounts (n : Option Nat) (impl : String) : String × String :=
   match n with
